@@ -3359,6 +3359,60 @@ theorem infoLookup_none_iff (name : Bytes) (subs : List Bytes) :
     | nil => simp
     | cons b rest' => simp
 
+/-- **infoFlag_iff.** A `Type=Flag` key is True for a row exactly when one of the row's items IS the name. -/
+theorem infoFlag_iff (name : Bytes) (subs : List Bytes) : infoFlag name subs = true ↔ name ∈ subs := by
+  simp [infoFlag]
+
+/-- an item that continues the name (`DBX`, `DBX=1`, `DBSNP=b151` for `DB`) is not the name, and it is an item
+`name=…` only if the continuation starts with `=` -/
+theorem info_longer_item (name ext : Bytes) (hext : ext ≠ []) :
+    name ++ ext ≠ name ∧ (isPrefix (name ++ [61]) (name ++ ext) = true ↔ ext.head? = some 61) := by
+  constructor
+  · intro h
+    have := congrArg List.length h
+    simp at this
+    exact hext this
+  · cases ext with
+    | nil => exact absurd rfl hext
+    | cons c r =>
+      unfold isPrefix
+      have : (name ++ c :: r).take (name ++ [61]).length = name ++ [c] := by
+        rw [List.take_append, List.take_of_length_le (by simp)]
+        simp
+      rw [this]
+      simp
+
+/-- **info_key_family.** Keys are compared by their whole name: a row all of whose items merely START WITH the name
+of a key (other flags `DBX`, other keys `DBSNP=…`; not `DB=…`) reads as "key absent" — the flag is False and the
+lookup gives the empty (missing) text — however many such relatives the row holds. -/
+theorem info_key_family (name : Bytes) (subs : List Bytes)
+    (h : ∀ f ∈ subs, ∃ ext, f = name ++ ext ∧ ext ≠ [] ∧ ext.head? ≠ some 61) :
+    infoFlag name subs = false ∧ infoLookup name subs = some [] := by
+  constructor
+  · rw [Bool.eq_false_iff]
+    intro hf
+    rw [infoFlag_iff] at hf
+    obtain ⟨ext, he, hne, _⟩ := h name hf
+    exact (info_longer_item name ext hne).1 he.symm
+  · unfold infoLookup
+    have : subs.filter (isPrefix (name ++ [61])) = [] := by
+      apply List.filter_eq_nil_iff.mpr
+      intro f hf
+      obtain ⟨ext, he, hne, hh⟩ := h f hf
+      rw [he]
+      intro hp
+      exact hh ((info_longer_item name ext hne).2.mp hp)
+    rw [this]
+
+-- flag DB, row "DBX;DBSNP=b1": relatives only
+example : ∀ f ∈ [[68,66,88], [68,66,83,78,80,61,98,49]], ∃ ext, f = [68,66] ++ ext ∧ ext ≠ [] ∧ ext.head? ≠ some 61 := by
+  intro f hf
+  simp at hf
+  rcases hf with rfl | rfl
+  · exact ⟨[88], by decide, by decide, by decide⟩
+  · exact ⟨[83,78,80,61,98,49], by decide, by decide, by decide⟩
+example : infoFlag [68,66] [[68,66,88], [68,66,83,78,80,61,98,49], [68,66]] = true := by decide
+
 /-! ### non-vacuity -/
 
 -- "c\t1\t22\nxy\t333\t4\n" : two lines, three fields each
